@@ -85,4 +85,5 @@ T_BookSq     == Ok => BookSq(Res, Im) /\ BookSqAssd(Res, Im)
 T_BookStd    == Ok => BookStd(Res, Im)
 T_BookPq     == Ok => BookPq(Res, Im)
 T_BookRanges == Ok => BookRanges(Res, Im)
+T_BookDecision == Ok => BookDecision(Res, C.dm, C.dthr)
 =============================================================================
